@@ -116,3 +116,17 @@ pub mod write_manager;
 pub(crate) mod sharded;
 pub(crate) mod single_flight;
 pub(crate) mod wide_column_cache;
+
+/// Verification hooks (only with `--cfg qbice_verif`): counters that let a
+/// test harness wait until the write-behind pipeline is idle.
+#[cfg(qbice_verif)]
+pub mod verif {
+    use std::sync::atomic::AtomicU64;
+
+    /// Number of write batches handed to `submit_write_batch`.
+    pub static SUBMITTED: AtomicU64 = AtomicU64::new(0);
+
+    /// Number of write batches whose after-commit notification completed
+    /// (or was skipped because the writer is shutting down).
+    pub static AFTER_COMMIT_DONE: AtomicU64 = AtomicU64::new(0);
+}
